@@ -101,6 +101,18 @@ WRet(isErr) ==
   /\ wpend' = WIdle
   /\ UNCHANGED <<written, next, skipOk, everFailed>>
 
+\* Summary of a run with writes of several MiB (nothing of that size is materialised in a trace): the clauses of C11
+\* as far as they can be observed by counting.  total: bytes written; sinkFailed: the sink returned an error;
+\* reported: how many of the two following flush / check_io_error calls returned an error; callsBetween: sink calls
+\* between the failure and the first report; outOfOrder: some accepted bytes were not the next bytes of the stream.
+WStreamOk(total, panicked, sinkFailed, reported, callsBetween, outOfOrder, received) ==
+  /\ ~panicked
+  /\ ~outOfOrder
+  /\ callsBetween = 0
+  /\ reported = (IF sinkFailed THEN 1 ELSE 0)
+  /\ (~sinkFailed => received = total)
+  /\ received <= total
+
 \* State predicates
 WAbsInv ==
   /\ next >= 0 /\ next <= Len(written)
